@@ -263,7 +263,7 @@ def _model_obs(reply):
 
 def _corr_scripted(ctx, out):
     rng = ctx.subrng("scripted")
-    cases = [_gen_scripted(rng) for _ in range(ctx.budget(2500, 40000))]
+    cases = [_gen_scripted(rng) for _ in range(ctx.budget(6000, 40000))]
     # a few hand-made corner cases: tie (first maximum wins), best in the middle, limit exactly reached
     base = dict(d=1, bounded=True, lower=[0.0], upper=[4.0], scalar=False, split=None, local=True)
     cases += [
@@ -309,7 +309,7 @@ def _corr_real_optimisers(ctx, out):
     from cogent3.maths import optimisers as O
 
     rng = ctx.subrng("realopt")
-    for it in range(ctx.budget(60, 600)):
+    for it in range(ctx.budget(150, 800)):
         d = rng.choice([1, 2, 3])
         centre = [rng.uniform(0.5, 3.5) for _ in range(d)]
         w = [rng.uniform(0.3, 3.0) for _ in range(d)]
@@ -706,10 +706,10 @@ TREES = [
 ]
 
 
-def _mk_lf(model, tree_s, aln, rules=()):
+def _mk_lf(model, tree_s, aln, rules=(), model_kw=None):
     from cogent3 import get_model, make_tree
 
-    lf = get_model(model).make_likelihood_function(make_tree(tree_s))
+    lf = get_model(model, **(model_kw or {})).make_likelihood_function(make_tree(tree_s))
     lf.set_alignment(aln)
     for r in rules:
         lf.set_param_rule(**r)
@@ -745,9 +745,14 @@ def _run_init_case(case):
     """fit null, initialise alt from it; returns (problem-or-None, info)"""
     aln = _alignment(case["taxa"], case["start"], case["length"], case.get("codon", False))
     null = _mk_lf(case["null"], case["tree"], aln, case.get("null_rules", ()))
-    alt = _mk_lf(case["alt"], case["tree"], aln, case.get("alt_rules", ()))
+    alt = _mk_lf(case["alt"], case["tree"], aln, case.get("alt_rules", ()), case.get("alt_kw"))
     _opt(null, True, case["max_evaluations"])
     info = dict(null_lnL=float(null.lnL), nfp=(null.nfp, alt.nfp))
+    if alt.nfp <= null.nfp:
+        # initialise_from_nested's documented precondition (more free parameters) fails: with cogent3's default of
+        # fixed empirical motif probabilities e.g. F81 has no more free parameters than JC69 -> not a nested pair
+        info["skipped"] = "alt has no more free parameters than null"
+        return None, info
     try:
         with warnings.catch_warnings():
             warnings.simplefilter("ignore")
@@ -796,17 +801,22 @@ def _spec_init(ctx, out, rng, budget):
     chosen = [p for p in pairs if _pair_class(*p) == "notsame"] + [p for p in pairs if _pair_class(*p) == "same"][:n_pairs]
     cases = []
     for a, b in chosen:
-        for _ in range(1 if budget < 8 else 3):
+        for _ in range(2 if budget < 8 else 3):
             tree_s, taxa = rng.choice(TREES)
             cases.append(dict(check="init", null=a, alt=b, tree=tree_s, taxa=taxa, start=rng.randrange(0, 2000, 3),
                               length=rng.choice([150, 300, 450]), max_evaluations=rng.choice([0, 3, 20, 100, 400]),
                               cls=_pair_class(a, b)))
-    for _ in range(max(1, budget // 2)):
+    for _ in range(max(2, budget // 2)):
         tree_s, taxa = rng.choice(TREES[1:])
         for kind, label, nm, nr, am, ar in _scoping_cases(rng, tree_s, taxa):
             cases.append(dict(check="init", null=nm, alt=am, null_rules=nr, alt_rules=ar, tree=tree_s, taxa=taxa,
                               start=rng.randrange(0, 2000, 3), length=rng.choice([150, 300]),
                               max_evaluations=rng.choice([5, 40, 150]), cls="scoped-" + kind, label=label))
+    for a, b in [("JC69", "F81"), ("HKY85", "HKY85"), ("K80", "TN93")]:
+        # motif probabilities freed in the alternative (the null keeps them fixed)
+        tree_s, taxa = rng.choice(TREES)
+        cases.append(dict(check="init", null=a, alt=b, alt_kw=dict(optimise_motif_probs=True), tree=tree_s, taxa=taxa,
+                          start=rng.randrange(0, 2000, 3), length=300, max_evaluations=rng.choice([5, 60]), cls="mprobs-freed"))
     codon_pairs = [("MG94HKY", "MG94GTR"), ("CNFHKY", "CNFGTR"), ("MG94HKY", "GNC")] if budget >= 8 else [("MG94HKY", "MG94GTR")]
     for a, b in codon_pairs:
         cases.append(dict(check="init", null=a, alt=b, tree=TREES[0][0], taxa=TREES[0][1], start=rng.randrange(0, 1500, 3),
@@ -819,7 +829,9 @@ def _spec_init(ctx, out, rng, budget):
         if "label" in case:
             bump(out, "init_scoping", case["label"])
         bump(out, "init_null_max_evaluations", case["max_evaluations"])
-        if prob is None:
+        if prob is None and "skipped" in info:
+            bump(out, "init_outcome", "outside quantifier: " + info["skipped"])
+        elif prob is None:
             bump(out, "init_outcome", "reproduced")
             if info["nfp"][1] > info["nfp"][0]:
                 out["nontrivial"].add(("init", case["null"], case["alt"], case["cls"], case["tree"], case["start"], case["length"], case["max_evaluations"]))
@@ -883,7 +895,7 @@ def _run_opt_case(case):
 def _spec_optimise(ctx, out, rng, budget):
     models = ["JC69", "F81", "K80", "HKY85", "TN93", "GTR", "ssGN", "GN"]
     cases = []
-    for _ in range(28 * budget):
+    for _ in range(120 * budget):
         tree_s, taxa = rng.choice(TREES)
         model = rng.choice(models)
         local = rng.choice([True, True, None, False])
@@ -986,9 +998,9 @@ def _image_outside_bounds(case, null_lf, aln, lower=1e-6, upper=50):
 
 
 def _spec_hypothesis(ctx, out, rng, budget):
-    pairs = [p for p in NESTED_NUC]
+    pairs = [p for p in NESTED_NUC if p != ("JC69", "F81")]  # equal nfp with fixed empirical motif probs: not nested
     cases = []
-    for _ in range(6 * budget):
+    for _ in range(25 * budget):
         a, b = rng.choice(pairs)
         tree_s, taxa = rng.choice(TREES)
         cases.append(dict(check="hypothesis", null=a, alt=b, tree=tree_s, taxa=taxa, start=rng.randrange(0, 2000, 3),
